@@ -1036,7 +1036,17 @@ static int janet_channel_pop_with_lock(JanetChannel *channel, Janet *item, int i
     }
     janet_assert(!janet_chan_unpack(channel, item, 0), "bad channel packing");
     JANET_VERIF_POINT(is_threaded ? 1 : 0, &channel->lock);
-    if (!janet_q_pop(&channel->write_pending, &writer, sizeof(writer))) {
+    int no_writer;
+    if (is_threaded) {
+        /* don't dereference fiber from another thread */
+        no_writer = janet_q_pop(&channel->write_pending, &writer, sizeof(writer));
+    } else {
+        /* Skip writers that have since been resumed by something else (e.g. another select clause) */
+        do {
+            no_writer = janet_q_pop(&channel->write_pending, &writer, sizeof(writer));
+        } while (!no_writer && (writer.sched_id != writer.fiber->sched_id));
+    }
+    if (!no_writer) {
         /* Pending writer */
         if (is_threaded) {
             JanetVM *vm = writer.thread;
